@@ -9,8 +9,19 @@
                                     ok <Z at x> <leaves>  |  raise  |  empty
     syn.same | N | D | x | got     SPEC predicate:  N(x)/D(x) = got   (undef if D(x) = 0)
     syn.value | N | D | x
+    syn.foster I|II | N | D | roots | x      roots = `r n r n …`: root table of D (Foster I) or of N (Foster II)
+                                    ok <Z at x> <shape> <leaves>  |  raise  |  badtable
+    syn.secs | N | D | roots       the terms of partfrac(combine_conjugates=True): `m q k`, `s r p o`, `p n1 n0 a b` separated by `;`
+    syn.form <form> | N | D | x    the pattern forms and RLC decided FROM N/D (collOf):  ok …  |  raise  |  empty
+    syn.coll | N | D               the dictionary collOf N D:  c0 cp cm other
+    syn.network <Z|Y|other> <form> | N | D | poles | zeros | x
+                                    ok …  |  empty  |  err:<notImpedance|unknownForm|cannotRealise>  |  badtable  |  outside
+    syn.transform <form> | <net, prefix notation: S a b, P a b, R:v L:v C:v G:v> | poles | zeros | x
+                                    <N of net.Z> ; <D of net.Z> ; <network reply>   (N, D cancelled, low order first)
+    syn.netZ | <net> | x           value of Net.Z and of ratZ at x:  <Z> <N(x)/D(x)>
 -/
 import Lcapy.Model.PolySynth
+import Lcapy.Model.PolyFoster
 import Lcapy.Driver.C11
 namespace Lcapy.Driver.C19
 open Lcapy.Poly Lcapy.Ratfun Lcapy.Synth Lcapy.Driver.C11
@@ -44,7 +55,141 @@ def patternTable : List (String × (Coll CQ → Option (Option (Net CQ)))) :=
    ("seriesRLC", seriesRLC), ("parallelRL", parallelRL), ("parallelRC", parallelRC),
    ("parallelGC", parallelGC), ("parallelLC", parallelLC), ("parallelRLC", parallelRLC)]
 
+def conjCQ (a : CQ) : CQ := ⟨a.v.map (fun x => (x.1, -x.2))⟩
+/-- `Root.is_conjugate_pair`: `self.expr == root.conj` -/
+def isConjCQ (p q : CQ) : Bool := decide (q = conjCQ p)
+
+def fresReply (x : CQ) : FRes CQ → String
+  | .ok n => netReply x (some (some n))
+  | .raises => "raise"
+  | .badTable => "badtable"
+
+def errStr : ErrKind → String
+  | .notImpedance => "notImpedance"
+  | .unknownForm => "unknownForm"
+  | .cannotRealise => "cannotRealise"
+
+def nresReply (x : CQ) : NRes CQ → String
+  | .ok n => netReply x (some (some n))
+  | .empty => "empty"
+  | .err e => "err:" ++ errStr e
+  | .badTable => "badtable"
+  | .outside => "outside"
+
+def secStr : Sec CQ → String
+  | .mono q k => s!"m {q} {k}"
+  | .single r p o => s!"s {r} {p} {o}"
+  | .pair n1 n0 a b => s!"p {n1} {n0} {a} {b}"
+
+def optStr : Option CQ → String
+  | none => "-"
+  | some a => toString a
+
+/-- prefix notation of a network: `S a b`, `P a b`, `R:v` … ; returns the network and the unread tokens -/
+def parseNet : Nat → List String → Option (Net CQ × List String)
+  | 0, _ => none
+  | _, [] => none
+  | f + 1, t :: rest =>
+    if t == "S" || t == "P" then
+      match parseNet f rest with
+      | some (a, r1) =>
+        match parseNet f r1 with
+        | some (b, r2) => some (if t == "S" then .ser a b else .par a b, r2)
+        | none => none
+      | none => none
+    else
+      match t.splitOn ":" with
+      | [k, v] =>
+        match CQ.parse v with
+        | some c =>
+          if k == "R" then some (.R c, rest) else if k == "L" then some (.L c, rest)
+          else if k == "C" then some (.C c, rest) else if k == "G" then some (.G c, rest) else none
+        | none => none
+      | _ => none
+
+def parseKind : String → Option Kind
+  | "Z" => some .impedance
+  | "Y" => some .admittance
+  | "other" => some .other
+  | _ => none
+
+def handle2 (toks : List String) : Option String :=
+  match toks with
+  | "syn.foster" :: which :: "|" :: rest => some <|
+      match splitBar rest with
+      | [n, d, roots, [x]] =>
+        match parseList n, parseList d, parseTable roots, CQ.parse x with
+        | some n, some d, some t, some x =>
+          if which == "I" then fresReply x (fosterI isConjCQ n d t)
+          else if which == "II" then fresReply x (fosterII isConjCQ n d t) else "bad-op"
+        | _, _, _, _ => "bad-op"
+      | _ => "bad-op"
+  | "syn.secs" :: "|" :: rest => some <|
+      match splitBar rest with
+      | [n, d, roots] =>
+        match parseList n, parseList d, parseTable roots with
+        | some n, some d, some t =>
+          match fosterSecs isConjCQ n d t with
+          | some secs => "ok " ++ " ; ".intercalate (secs.map secStr)
+          | none => "badtable"
+        | _, _, _ => "bad-op"
+      | _ => "bad-op"
+  | "syn.form" :: form :: "|" :: rest => some <|
+      match splitBar rest with
+      | [n, d, [x]] =>
+        match parseList n, parseList d, CQ.parse x, Form.ofString form with
+        | some n, some d, some x, some f =>
+          if f = .RLC then netReply x (rlcForm n d)
+          else match patternOf f with
+            | some g => netReply x (g n d)
+            | none => "unknown-form"
+        | _, _, _, none => "unknown-form"
+        | _, _, _, _ => "bad-op"
+      | _ => "bad-op"
+  | "syn.coll" :: "|" :: rest => some <|
+      match splitBar rest with
+      | [n, d] =>
+        match parseList n, parseList d with
+        | some n, some d =>
+          let c := collOf n d
+          s!"{optStr c.c0} {optStr c.cp} {optStr c.cm} {if c.other then 1 else 0}"
+        | _, _ => "bad-op"
+      | _ => "bad-op"
+  | "syn.network" :: kind :: form :: "|" :: rest => some <|
+      match splitBar rest with
+      | [n, d, poles, zeros, [x]] =>
+        match parseKind kind, parseList n, parseList d, parseTable poles, parseTable zeros, CQ.parse x with
+        | some k, some n, some d, some p, some z, some x => nresReply x (network isConjCQ k form n d p z)
+        | _, _, _, _, _, _ => "bad-op"
+      | _ => "bad-op"
+  | "syn.transform" :: form :: "|" :: rest => some <|
+      match splitBar rest with
+      | [net, poles, zeros, [x]] =>
+        match parseNet (net.length + 1) net, parseTable poles, parseTable zeros, CQ.parse x with
+        | some (nt, []), some p, some z, some x =>
+          let c := Poly.cancel nt.ratZ.1 nt.ratZ.2
+          s!"{listStr c.1} ; {listStr c.2} ; {nresReply x (transform isConjCQ form nt p z)}"
+        | _, _, _, _ => "bad-op"
+      | _ => "bad-op"
+  | "syn.ratZ" :: "|" :: rest => some <|
+      match parseNet (rest.length + 1) rest with
+      | some (nt, []) =>
+        let c := Poly.cancel nt.ratZ.1 nt.ratZ.2
+        s!"{listStr c.1} ; {listStr c.2}"
+      | _ => "bad-op"
+  | "syn.netZ" :: "|" :: rest => some <|
+      match splitBar rest with
+      | [net, [x]] =>
+        match parseNet (net.length + 1) net, CQ.parse x with
+        | some (nt, []), some x => s!"{nt.Z x} {Poly.eval nt.ratZ.1 x / Poly.eval nt.ratZ.2 x}"
+        | _, _ => "bad-op"
+      | _ => "bad-op"
+  | _ => none
+
 def handle (toks : List String) : Option String :=
+  match handle2 toks with
+  | some r => some r
+  | none =>
   match toks with
   | "syn.cauerI" :: "|" :: rest => some <|
       match splitBar rest with
